@@ -28,6 +28,8 @@ ADOPT = [("C01", ["C01-e"], "non-negativity, the unit bounds of total variation 
 
 
 def run(pm, ctx):
+    _EXACT_CACHE.clear()
+    _EXACT_CACHE["pm"] = pm
     ctx.rule("C13-a", "a score that treats some sample or cluster position specially is not invariant under reordering", floor=12)
     ctx.rule("C13-b", "finite scores and gradients on the closed simplex require clipping before log, division and sqrt", floor=14)
     ctx.rule("C13-c", "an empty cluster must receive zero gradient", floor=12)
@@ -274,9 +276,14 @@ def clip_rules(ctx, unit, qn, f):
             core = core.func.value
         guarded = False
         if isinstance(core, ast.BinOp) and isinstance(core.op, ast.Add):
+            from ..match import resolve_expr
             for side in (core.left, core.right):
                 s_ = norm_src(side)
-                if s_.startswith("np.eye(") or s_.endswith("_mask") or "== 0" in s_:
+                try:
+                    r_ = norm_src(resolve_expr(cfg, _cfg_stmt(cfg, n), side))     # a mask held in a local, whatever its name
+                except Exception:
+                    r_ = s_
+                if s_.startswith("np.eye(") or s_.endswith("_mask") or "== 0" in s_ or r_.startswith("np.eye(") or "== 0" in r_:
                     guarded = True
         if isinstance(core, ast.Call) and (call_name(core) or "").split(".")[-1] == "where" and len(core.args) == 3 and "== 0" in norm_src(core.args[0]) \
                 and norm_src(core.args[1]) not in ("0", "0.0"):
@@ -337,8 +344,24 @@ def mask_rules(ctx, unit, qn, f):
                             break
             if ok:
                 ctx.ok("C13-c", site, "gradient multiplied by the raw clip mask: columns clipped at epsilon get 0")
+            elif _exact(unit) is not None and (qn.split(".")[0], ov) in _exact(unit):
+                ctx.ok("C13-c", site, "mask factor not identified syntactically; the term comparison of C02-g proves gradient = clip mask * derivative")
             else:
                 ctx.violation("C13-c", unit.relpath, qn, norm_src(st)[:160], f"the gradient of a clipped (empty) cluster is not zeroed: {why}", line=st.lineno, site=site)
+
+
+_EXACT_CACHE = {}
+
+
+def _exact(unit):
+    """lazily computed set of (class, ovo) whose gradient is proved exact (only needed when the syntactic mask rule fails)"""
+    pm_ = _EXACT_CACHE.get("pm")
+    if pm_ is None:
+        return None
+    if "set" not in _EXACT_CACHE:
+        from .c02 import exact_gradients
+        _EXACT_CACHE["set"] = exact_gradients(pm_)
+    return _EXACT_CACHE["set"]
 
 
 def _stmt(n):
